@@ -1106,6 +1106,13 @@ pub fn c18_bend(listen: u8) -> Result<u64, Failure> {
     let mut r = MonoMidiReceiver::new(listen);
     let mut prev: Option<f32> = None;
     for v in 0..16384u16 {
+        if v % 3 == 0 {
+            // the very same value on another channel first: must not be heard, and must not mask the real one
+            let other = (listen + 1 + (v % 15) as u8) % 16;
+            r.parse(0xE0 | other);
+            r.parse((v & 0x7F) as u8);
+            r.parse((v >> 7) as u8);
+        }
         r.parse(0xE0 | listen);
         r.parse((v & 0x7F) as u8);
         r.parse((v >> 7) as u8);
